@@ -376,6 +376,31 @@ def gen_functions(run):
     for e in ("CHR$(INT(65.5))", "STR$(LEN(S$))", "LEFT$(S$,INT(2.5))", "MID$(S$,LEN(T$),1)", "STRING$(LEN(T$),S$)", "HEX$(ASC(S$))", "CHR$(ASC(S$)+1)", "RIGHT$(LEFT$(S$,2),1)"):
         m = re.match(r"[A-Z]+\$?", e)
         cases.append({"text": f'10 S$="ABC":T$="12"\n20 Z$={e}\n', "features": {"function", "nested", "fn:" + m.group(0)}, "origin": e})
+    # functions inside IF conditions: every branch form; thresholds on both sides of the Color BASIC value
+    import math
+    from vf.decb import model as D
+    CONV = ("INT", "VAL", "INSTR", "STR$", "HEX$", "STRING$", "FIX")
+    conds = [(f"{f1}(X)", {"fn:" + f1}) for f1 in NUM1] + [(e, {"fn:" + re.match(r"[A-Z]+\$?", e).group(0)}) for e, k in sfun if k == "n"] + [("LEN(STR$(X))", {"fn:STR$"}), ("ASC(HEX$(X+9))", {"fn:HEX$"}), ("INT(X)+INT(X/2)", {"fn:INT"})]
+    for e, ff in conds:
+        for a in ("2.5", "4"):
+            pre = f'10 S$="ABC":T$="12":X={a}:C=INT(X*3)+VAL(T$)\n'
+            try:
+                m = D.Machine(pre + f"20 Z={e}\n")
+                m.run()
+                val = m.vars.get("Z")
+            except Exception:  # noqa
+                continue
+            if not isinstance(val, float) or math.isnan(val) or abs(val) > 1e6:
+                continue
+            lo, hi = math.floor(val) - 1, math.floor(val) + 1
+            conv = any(c + "(" in e for c in CONV)
+            body = (f'20 IF {e}>{lo} THEN Z=1\n30 IF {e}>{hi} THEN Z=Z+10\n40 IF {e}<{hi} THEN 60\n50 Z=Z+100\n60 IF {e}<{lo} THEN 80\n70 Z=Z+1000\n80 IF {e}>{lo} AND {e}<{hi} THEN Z=Z+10000\n'
+                    f'90 IF NOT {e}>{hi} THEN Z=Z+100000\n')
+            cases.append({"text": pre + body, "features": {"function", "fn-in-cond"} | ff | ({"fn:FIX-nonint"} if "FIX" in e and "." in a else set()), "origin": f"cond {e} X={a}"})
+            if not conv:
+                body2 = (f'20 IF {e}>{lo} THEN Z=1 ELSE Z=2\n30 IF {e}>{hi} THEN Z=Z+10 ELSE Z=Z+20\n40 IF {e}>{hi} THEN Z=Z+100 ELSE IF {e}>{lo} THEN Z=Z+200 ELSE Z=Z+300\n'
+                         f'50 IF {e}<{lo} THEN 70 ELSE Z=Z+1000\n60 Z=Z+5000\n70 Z=Z+10000\n')
+                cases.append({"text": pre + body2, "features": {"function", "fn-in-cond", "fn-in-ifelse-cond"} | ff, "origin": f"cond-else {e} X={a}"})
     run.states += len(cases)
     run.transitions += len(cases)
     return cases
